@@ -157,6 +157,16 @@ def shrink(binary, seq, kind, wd):
     except Exception:
         return seq
 
+def adapter_held_changed(abin, lines, wd):
+    """run NewReader-adapter op lines (go/cmd/adapter -replay); first HELD-CHANGED reply or None"""
+    os.makedirs(wd, exist_ok=True)
+    p = os.path.join(wd, 'replay.ops'); out = os.path.join(wd, 'replay.impl')
+    open(p, 'w').write('\n'.join(lines) + '\n')
+    subprocess.run([abin, '-replay', p, '-impl-out', out], timeout=120)
+    for r in read(out):
+        if r.startswith('HELD-CHANGED'): return r
+    return None
+
 def check(rep, prop, kinds, modules):
     """shared body of checks/c02.py and checks/c03.py"""
     import glob, shutil, json
@@ -216,7 +226,13 @@ def check(rep, prop, kinds, modules):
                 if o.startswith('seq '): start = i
                 if o.startswith('zr ') and ' new ' in o: nz += 1
                 if r.startswith('HELD-CHANGED'):
-                    problems.append((['# NewReader adapter sequence (replay: go/bin/adapter -replay <file with the lines below, without the leading "# ">)'] + ['# ' + x for x in ol[start:i + 1]], 0, 'view-corrupt', 'through the NewReader adapter: ' + r[:300]))
+                    seq = ol[start:i + 1]; hdr = seq[0]
+                    try:
+                        seq = [hdr] + lbtool.shrink(abin, seq[1:], awd, lambda ls: adapter_held_changed(abin, [hdr] + ls, awd) is not None)
+                    except Exception:
+                        pass
+                    problems.append((['# NewReader adapter sequence (go/cmd/adapter; ./check C02 --replay runs it): every result of Next/Peek/Until is re-compared after every later op until "rel"'] + seq,
+                                     0, 'view-corrupt', 'through the NewReader adapter: ' + r[:300]))
                     break
             rep.cov['adapter_reader_sequences'] = nz
     mine = [p for p in problems if p[2] in kinds]
@@ -238,8 +254,17 @@ def check(rep, prop, kinds, modules):
         print('KNOWN-FINDING: property=%s %s (seen in %d sequences of this run)' % (prop, k['what'], tainted))
 
 def replay(rep, prop, kinds, path):
-    binary, out = common.build_harness('lbdiff'); common.lake_build(['npdriver'])
     lines = [l for l in open(path).read().split('\n') if l and not l.startswith('#')]
+    if any(l.startswith('zr ') for l in lines):
+        # a sequence on the NewReader adapter (C02 through the io.Reader adapter)
+        abin, out = common.build_harness('adapter')
+        r = adapter_held_changed(abin, lines, os.path.join(common.WORK, 'replay_' + prop))
+        rep.cov['evaluations'] = 1
+        if r:
+            print('REPLAY: view-corrupt: ' + r)
+            if 'view-corrupt' in kinds: rep.violation('replay reproduces: through the NewReader adapter: ' + r, lines)
+        return rep.finish('proof')
+    binary, out = common.build_harness('lbdiff'); common.lake_build(['npdriver'])
     r = replay_ops(binary, lines, os.path.join(common.WORK, 'replay_' + prop))
     rep.cov['evaluations'] = r['seqs']
     for p in r['problems']: print('REPLAY: %s: %s' % (p[2], p[3]))
